@@ -137,6 +137,9 @@ func stageMatrix() {
 	builds, failed := 0, 0
 	var secs float64
 	for ci, cfg := range cfgs {
+		if buildsTimedOut > 0 {
+			break
+		}
 		repo, err := synthrepo.Write(filepath.Join(root, "repo-"+cfg.Name), key, mainUniverse(*seed, ci))
 		if err != nil {
 			fatal("synthrepo: %v", err)
@@ -152,8 +155,11 @@ func stageMatrix() {
 			cells = quickCells()
 		}
 		refs := map[string]buildResult{}
-		for rep := 0; rep < reps; rep++ {
+		for rep := 0; rep < reps && buildsTimedOut == 0; rep++ {
 			for _, c := range cells {
+				if buildsTimedOut > 0 {
+					break
+				}
 				if c.Dim == "repeat" {
 					// make sure the repeat starts in a later wall-clock second than the reference
 					if r, ok := refs[c.group()]; ok {
@@ -219,6 +225,9 @@ func stageMatrix() {
 		e.cfgYAML = cfg.yaml(srv.URL, repo.KeyPath())
 		var ref buildResult
 		for i, a := range []string{archs[0], archs[1], archs[0], ""} {
+			if buildsTimedOut > 0 {
+				break
+			}
 			slow.Store(a)
 			c := with(refCell, "no-sde+late-architecture="+a, func(c *cell) { c.SDE = "" })
 			res := e.run(c)
